@@ -1,1 +1,368 @@
 //! Stateful (dynamic table) QPACK encoder and decoder.
+//!
+//! Thin wrappers that take and return plain byte vectors, numbers and Debug-text errors, so that an
+//! external harness can drive the crate-private `Encoder` / `Decoder` / `DynamicTable`, plus parsers
+//! that turn encoder-stream, decoder-stream and field-section bytes back into a structured form
+//! (using the crate's own instruction codecs).
+use std::io::Cursor;
+
+use bytes::Buf;
+
+use super::super::{
+    block::{
+        HeaderBlockField, HeaderPrefix, Indexed, IndexedWithPostBase, Literal, LiteralWithNameRef,
+        LiteralWithPostBaseNameRef,
+    },
+    decoder::{self, Decoder},
+    dynamic::DynamicTable,
+    encoder::{self, Encoder},
+    field::HeaderField,
+    parse_error::ParseError,
+    stream::{
+        DecoderInstruction, Duplicate, DynamicTableSizeUpdate, EncoderInstruction, HeaderAck,
+        InsertCountIncrement, InsertWithNameRef, InsertWithoutNameRef, StreamCancel,
+    },
+};
+
+pub use super::super::dynamic::VerifSnapshot as Snapshot;
+
+pub type Fields = Vec<(Vec<u8>, Vec<u8>)>;
+
+fn table(max_size: usize, max_blocked: usize) -> Result<DynamicTable, String> {
+    let mut t = DynamicTable::new();
+    t.set_max_size(max_size).map_err(|e| format!("{:?}", e))?;
+    t.set_max_blocked(max_blocked)
+        .map_err(|e| format!("{:?}", e))?;
+    Ok(t)
+}
+
+/// What `Encoder::encode` produced for one field section.
+#[derive(Debug, Clone)]
+pub struct Encoded {
+    pub required_ref: usize,
+    pub block: Vec<u8>,
+    pub encoder_stream: Vec<u8>,
+}
+
+pub struct VEncoder(Encoder);
+
+impl VEncoder {
+    pub fn new(max_size: usize, max_blocked: usize) -> Result<Self, String> {
+        Ok(VEncoder(Encoder::from(table(max_size, max_blocked)?)))
+    }
+
+    /// `Encoder::encode`
+    pub fn encode(&mut self, stream_id: u64, fields: &Fields) -> Result<Encoded, String> {
+        let fields: Vec<HeaderField> = fields
+            .iter()
+            .map(|(n, v)| HeaderField::new(n.clone(), v.clone()))
+            .collect();
+        let mut block = Vec::new();
+        let mut enc = Vec::new();
+        let required_ref = self
+            .0
+            .encode(stream_id, &mut block, &mut enc, &fields)
+            .map_err(|e| format!("{:?}", e))?;
+        Ok(Encoded {
+            required_ref,
+            block,
+            encoder_stream: enc,
+        })
+    }
+
+    /// `Encoder::on_decoder_recv` on one contiguous buffer; returns the result and the number of
+    /// bytes consumed.
+    pub fn on_decoder_recv(&mut self, bytes: &[u8]) -> (Result<(), String>, usize) {
+        let mut cur = Cursor::new(bytes);
+        let r = self
+            .0
+            .on_decoder_recv(&mut cur)
+            .map_err(|e| format!("{:?}", e));
+        (r, cur.position() as usize)
+    }
+
+    /// `encoder::set_dynamic_table_size` on this encoder's table; returns the encoder-stream bytes
+    pub fn set_table_size(&mut self, size: usize) -> Result<Vec<u8>, String> {
+        let mut enc = Vec::new();
+        encoder::set_dynamic_table_size(self.0.verif_table_mut(), &mut enc, size)
+            .map_err(|e| format!("{:?}", e))?;
+        Ok(enc)
+    }
+
+    pub fn snapshot(&self) -> Snapshot {
+        self.0.verif_table().verif_snapshot()
+    }
+}
+
+/// What `Decoder::decode_header` returned.
+#[derive(Debug, Clone)]
+pub struct VDecoded {
+    pub fields: Fields,
+    pub dyn_ref: bool,
+    pub mem_size: u64,
+}
+
+pub struct VDecoder(Decoder);
+
+impl VDecoder {
+    pub fn new(max_size: usize, max_blocked: usize) -> Result<Self, String> {
+        Ok(VDecoder(Decoder::from(table(max_size, max_blocked)?)))
+    }
+
+    /// `Decoder::on_encoder_recv` on one contiguous buffer; returns the result, the number of bytes
+    /// consumed and the decoder-stream bytes written.
+    pub fn on_encoder_recv(&mut self, bytes: &[u8]) -> (Result<usize, String>, usize, Vec<u8>) {
+        let mut cur = Cursor::new(bytes);
+        let mut out = Vec::new();
+        let r = self
+            .0
+            .on_encoder_recv(&mut cur, &mut out)
+            .map_err(|e| format!("{:?}", e));
+        (r, cur.position() as usize, out)
+    }
+
+    /// `Decoder::decode_header`
+    pub fn decode_header(&self, block: &[u8]) -> Result<VDecoded, String> {
+        let mut cur = Cursor::new(block);
+        let d = self
+            .0
+            .decode_header(&mut cur)
+            .map_err(|e| format!("{:?}", e))?;
+        Ok(VDecoded {
+            fields: d
+                .fields
+                .into_iter()
+                .map(|f| (f.name.to_vec(), f.value.to_vec()))
+                .collect(),
+            dyn_ref: d.dyn_ref,
+            mem_size: d.mem_size,
+        })
+    }
+
+    pub fn snapshot(&self) -> Snapshot {
+        self.0.verif_table().verif_snapshot()
+    }
+}
+
+/// `decoder::ack_header`
+pub fn ack_header(stream_id: u64) -> Vec<u8> {
+    let mut out = Vec::new();
+    decoder::ack_header(stream_id, &mut out);
+    out
+}
+
+/// `decoder::stream_canceled`
+pub fn stream_canceled(stream_id: u64) -> Vec<u8> {
+    let mut out = Vec::new();
+    decoder::stream_canceled(stream_id, &mut out);
+    out
+}
+
+/// `HeaderPrefix::new(..)` as its three wire components (encoded insert count, sign, delta base)
+pub fn header_prefix_new(
+    required: usize,
+    base: usize,
+    total_inserted: usize,
+    max_table_size: usize,
+) -> (usize, bool, usize) {
+    prefix_parts(&HeaderPrefix::new(
+        required,
+        base,
+        total_inserted,
+        max_table_size,
+    ))
+}
+
+/// `HeaderPrefix::get` applied to a prefix with the given wire components
+pub fn header_prefix_get(
+    encoded_insert_count: usize,
+    sign_negative: bool,
+    delta_base: usize,
+    total_inserted: usize,
+    max_table_size: usize,
+) -> Result<(usize, usize), String> {
+    let mut buf = Vec::new();
+    super::super::prefix_int::encode(8, 0, encoded_insert_count as u64, &mut buf);
+    super::super::prefix_int::encode(7, sign_negative as u8, delta_base as u64, &mut buf);
+    let p = HeaderPrefix::decode(&mut Cursor::new(&buf[..])).map_err(|e| format!("{:?}", e))?;
+    p.get(total_inserted, max_table_size)
+        .map_err(|e| format!("{:?}", e))
+}
+
+fn prefix_parts(p: &HeaderPrefix) -> (usize, bool, usize) {
+    match p.base_without_refs() {
+        Ok(delta) => (p.encoded_insert_count(), false, delta),
+        Err(ParseError::InvalidBase(b)) => (p.encoded_insert_count(), true, (-1 - b) as usize),
+        Err(_) => unreachable!(),
+    }
+}
+
+/// One encoder-stream instruction (RFC 9204 section 4.3)
+#[derive(Debug, Clone, PartialEq)]
+pub enum VEncInstr {
+    SizeUpdate(usize),
+    InsertStaticName(usize, Vec<u8>),
+    InsertDynamicName(usize, Vec<u8>),
+    InsertLiteral(Vec<u8>, Vec<u8>),
+    Duplicate(usize),
+}
+
+/// Splits encoder-stream bytes into instructions with the crate's own instruction decoders.
+/// Returns the instructions with their encoded lengths; stops at an incomplete tail.
+pub fn parse_encoder_stream(bytes: &[u8]) -> Result<Vec<(VEncInstr, usize)>, String> {
+    let mut out = Vec::new();
+    let mut pos = 0;
+    while pos < bytes.len() {
+        let mut cur = Cursor::new(&bytes[pos..]);
+        let first = bytes[pos];
+        let e = |e: ParseError| format!("{:?}", e);
+        let ins = match EncoderInstruction::decode(first) {
+            EncoderInstruction::Unknown => return Err(format!("UnknownPrefix({})", first)),
+            EncoderInstruction::DynamicTableSizeUpdate => {
+                DynamicTableSizeUpdate::decode(&mut cur)
+                    .map_err(e)?
+                    .map(|x| VEncInstr::SizeUpdate(x.0))
+            }
+            EncoderInstruction::InsertWithoutNameRef => InsertWithoutNameRef::decode(&mut cur)
+                .map_err(e)?
+                .map(|x| VEncInstr::InsertLiteral(x.name, x.value)),
+            EncoderInstruction::Duplicate => Duplicate::decode(&mut cur)
+                .map_err(e)?
+                .map(|x| VEncInstr::Duplicate(x.0)),
+            EncoderInstruction::InsertWithNameRef => {
+                InsertWithNameRef::decode(&mut cur).map_err(e)?.map(|x| match x {
+                    InsertWithNameRef::Static { index, value } => {
+                        VEncInstr::InsertStaticName(index, value)
+                    }
+                    InsertWithNameRef::Dynamic { index, value } => {
+                        VEncInstr::InsertDynamicName(index, value)
+                    }
+                })
+            }
+        };
+        match ins {
+            None => break,
+            Some(i) => {
+                let n = cur.position() as usize;
+                out.push((i, n));
+                pos += n;
+            }
+        }
+    }
+    Ok(out)
+}
+
+/// One decoder-stream instruction (RFC 9204 section 4.4)
+#[derive(Debug, Clone, PartialEq)]
+pub enum VDecInstr {
+    HeaderAck(u64),
+    StreamCancel(u64),
+    InsertCountIncrement(u8),
+}
+
+/// Splits decoder-stream bytes into instructions with the crate's own instruction decoders.
+pub fn parse_decoder_stream(bytes: &[u8]) -> Result<Vec<(VDecInstr, usize)>, String> {
+    let mut out = Vec::new();
+    let mut pos = 0;
+    while pos < bytes.len() {
+        let mut cur = Cursor::new(&bytes[pos..]);
+        let first = bytes[pos];
+        let e = |e: ParseError| format!("{:?}", e);
+        let ins = match DecoderInstruction::decode(first) {
+            DecoderInstruction::Unknown => return Err(format!("UnknownPrefix({})", first)),
+            DecoderInstruction::InsertCountIncrement => InsertCountIncrement::decode(&mut cur)
+                .map_err(e)?
+                .map(|x| VDecInstr::InsertCountIncrement(x.0)),
+            DecoderInstruction::HeaderAck => HeaderAck::decode(&mut cur)
+                .map_err(e)?
+                .map(|x| VDecInstr::HeaderAck(x.0)),
+            DecoderInstruction::StreamCancel => StreamCancel::decode(&mut cur)
+                .map_err(e)?
+                .map(|x| VDecInstr::StreamCancel(x.0)),
+        };
+        match ins {
+            None => break,
+            Some(i) => {
+                let n = cur.position() as usize;
+                out.push((i, n));
+                pos += n;
+            }
+        }
+    }
+    Ok(out)
+}
+
+/// `InsertCountIncrement(n).encode` (the decoder-stream instruction written by `on_encoder_recv`)
+pub fn insert_count_increment(n: u8) -> Vec<u8> {
+    let mut out = Vec::new();
+    InsertCountIncrement(n).encode(&mut out);
+    out
+}
+
+/// One field line representation (RFC 9204 section 4.5)
+#[derive(Debug, Clone, PartialEq)]
+pub enum VRep {
+    IndexedStatic(usize),
+    IndexedDynamic(usize),
+    IndexedPostBase(usize),
+    LiteralStaticName(usize, Vec<u8>),
+    LiteralDynamicName(usize, Vec<u8>),
+    LiteralPostBaseName(usize, Vec<u8>),
+    Literal(Vec<u8>, Vec<u8>),
+}
+
+/// An encoded field section split into its prefix and representations
+#[derive(Debug, Clone, PartialEq)]
+pub struct VBlock {
+    pub encoded_insert_count: usize,
+    pub sign_negative: bool,
+    pub delta_base: usize,
+    pub reps: Vec<VRep>,
+}
+
+/// Parses an encoded field section with the crate's own codecs (no table involved).
+pub fn parse_block(bytes: &[u8]) -> Result<VBlock, String> {
+    let mut cur = Cursor::new(bytes);
+    let e = |e: ParseError| format!("{:?}", e);
+    let prefix = HeaderPrefix::decode(&mut cur).map_err(e)?;
+    let (encoded_insert_count, sign_negative, delta_base) = prefix_parts(&prefix);
+    let mut reps = Vec::new();
+    while cur.has_remaining() {
+        let first = cur.chunk()[0];
+        let rep = match HeaderBlockField::decode(first) {
+            HeaderBlockField::Indexed => match Indexed::decode(&mut cur).map_err(e)? {
+                Indexed::Static(i) => VRep::IndexedStatic(i),
+                Indexed::Dynamic(i) => VRep::IndexedDynamic(i),
+            },
+            HeaderBlockField::IndexedWithPostBase => {
+                VRep::IndexedPostBase(IndexedWithPostBase::decode(&mut cur).map_err(e)?.0)
+            }
+            HeaderBlockField::LiteralWithNameRef => {
+                match LiteralWithNameRef::decode(&mut cur).map_err(e)? {
+                    LiteralWithNameRef::Static { index, value } => {
+                        VRep::LiteralStaticName(index, value)
+                    }
+                    LiteralWithNameRef::Dynamic { index, value } => {
+                        VRep::LiteralDynamicName(index, value)
+                    }
+                }
+            }
+            HeaderBlockField::LiteralWithPostBaseNameRef => {
+                let l = LiteralWithPostBaseNameRef::decode(&mut cur).map_err(e)?;
+                VRep::LiteralPostBaseName(l.index, l.value)
+            }
+            HeaderBlockField::Literal => {
+                let l = Literal::decode(&mut cur).map_err(e)?;
+                VRep::Literal(l.name, l.value)
+            }
+            HeaderBlockField::Unknown => return Err(format!("UnknownPrefix({})", first)),
+        };
+        reps.push(rep);
+    }
+    Ok(VBlock {
+        encoded_insert_count,
+        sign_negative,
+        delta_base,
+        reps,
+    })
+}
